@@ -18,12 +18,14 @@ META = {
                   "with a slow peer are replayed in the model), by-value replies "
                   "dispatched in one step (a reply whose unboxing needs a nested round trip is C15's F48; since 5dce6c8 a reply that cannot be rebuilt fails its own request), "
                   "incoming REPLIES only - incoming requests of the peer and exception replies are run by the harness (mixed phase: each peer request answered exactly once, each "
-                  "exception reply fails exactly its request) but are not in the transition system. No liveness beyond progress: 'every request completes' is refuted above for "
+                  "exception reply fails exactly its request) but are not in the transition system. Liveness: progress, plus POSSIBILITY from every reachable state (proofs/ServeF.v: c13_no_state_is_a_trap - wherever the reply is and whoever holds the "
+                  "receive lock, a continuation of thread steps, timeouts and the peer's answer takes the waiter out of wait(), Returned, or TimedOut only if its expiry "
+                  "had already passed; c13_unexpired_request_can_still_complete); a guarantee under every scheduler ('every request completes') is refuted above for "
                   "deadline-free waits and not proved for the others. serve's instruction program and the ordering facts of wait/__call__/_async_request are "
                   "regenerated from the source (fail-closed) and tied by reflexivity; event traces of real threads under a virtual-primitive scheduler are replayed in the extracted model.",
     "level_note": "Trusted: Coq kernel, pygen, extraction+driver, the virtual Lock/Condition/poll/clock (harness/vsched.py) standing for threading and the channel; GIL atomicity of "
                   "dict.pop, dict.__setitem__, next(itertools.count()); one model step abstracts several source lines (issue = seq+register+send).",
-    "technique": "Coq inductive invariants over an unbounded-thread transition system; generated program tie; trace validation of real threads (virtual scheduler) against the extracted model",
+    "technique": "Coq inductive invariants over an unbounded-thread transition system + well-founded measure (no reachable state is a trap); generated program tie; trace validation of real threads (virtual scheduler) against the extracted model",
     "gen": ["serve", "stream", "protocol"],
     "shapes": ["serve.*", "stream.Stream.poll", "protocol.Connection.__init__", "protocol.Connection._get_seq_id", "protocol.Connection.serve", "protocol.Connection._dispatch", "protocol.Connection._dispatch_response", "protocol.Connection._seq_request_callback", "protocol.Connection._async_request",
                "protocol.Connection._get_seq_id", "protocol.Connection.sync_request", "protocol.Connection.async_request"],
@@ -73,7 +75,10 @@ class VChan:
         self.closed = True
 
 
-def scenario(n_clients, with_bg, answer_order, chooser, sync_timeout=2.0, timeouts=None, eof_after=None, peer_requests=0, exc_replies=(), answer_delay=None, events_out=None, raising_callback=(), pollers=()):
+SLOW_HANDLER = 98      # harness-only handler number: a request of the peer whose handler takes `slow_request` virtual seconds
+
+
+def scenario(n_clients, with_bg, answer_order, chooser, sync_timeout=2.0, timeouts=None, eof_after=None, peer_requests=0, exc_replies=(), answer_delay=None, events_out=None, raising_callback=(), pollers=(), slow_request=None):
     """returns dict(result per client, events, lateness per client, deadlock, clock advances)"""
     codes = [P.Connection.serve.__code__, P.Connection._dispatch.__code__, P.Connection._seq_request_callback.__code__,
              P.Connection._async_request.__code__, P.Connection._get_seq_id.__code__, P.Connection._send.__code__,
@@ -151,6 +156,14 @@ def scenario(n_clients, with_bg, answer_order, chooser, sync_timeout=2.0, timeou
                 seq_by_res[id(v)] = k
                 dict.__setitem__(self, k, v)
         conn._request_callbacks = RecDict()
+        if slow_request:
+            def slow_handler(self_, data):
+                out["slow"] = {"thread": S.me(), "start": S.now}
+                S.block(lambda: False, S.now + slow_request, why="slow-handler")        # the handler is busy for that much virtual time
+                out["slow"]["end"] = S.now
+                return data
+            conn._HANDLERS = dict(conn._HANDLERS)
+            conn._HANDLERS[SLOW_HANDLER] = slow_handler
 
         deadlines = {}
 
@@ -240,7 +253,13 @@ def scenario(n_clients, with_bg, answer_order, chooser, sync_timeout=2.0, timeou
                     S.block(lambda: False, S.now + answer_delay[c], why="peer-sleep")     # the peer is slow: answers after that much (virtual) time
                 q = seq_of(c)
                 out["seq_of"][c] = q
+                if slow_request and not out["peer_requests"]:
+                    # a request of the peer's own with a slow handler goes into the stream FIRST, the reply right behind it: whoever
+                    # reads the request is busy for a while, the reply must not have to wait for that thread
+                    out["peer_requests"].append(1000)
+                    ch.inq.append(brine.dump((consts.MSG_REQUEST, 1000, (SLOW_HANDLER, (consts.LABEL_VALUE, ("ping1000",))))))
                 answered.append(c)
+                out.setdefault("answer_time", {})[c] = S.now
                 rec(("answer", q))
                 if c in exc_replies:
                     # an exception reply (a vinegar record of a built-in class): the request must fail with exactly that
@@ -406,6 +425,28 @@ def oracle13_mixed(ctx, case, out, n_clients, exc_replies):
         ctx.violation("reply-or-callback-left-over", case, observed={"inq": out["inq_left"], "pending": out["pending_left"]}, expected="none", what="a message was never dispatched or a callback never invoked")
     if out["errors"]:
         ctx.violation("thread-raised", case, observed=out["errors"], expected="no exception", what="a thread raised")
+
+
+def oracle13_slow(ctx, case, out, n_clients):
+    """a request of the peer with a slow handler sits in the stream in front of a client's reply: everything of oracle13_mixed, and a
+    client whose reply was in the stream while ANOTHER thread ran the handler must not have had to wait for that handler"""
+    oracle13_mixed(ctx, case, out, n_clients, ())
+    sl = out.get("slow")
+    if out["deadlock"] or not sl or "end" not in sl:
+        return
+    for i in range(n_clients):
+        if sl["thread"] == i or i not in out.get("answer_time", {}) or out["answer_time"][i] > sl["start"]:
+            continue
+        # the reply was in the stream when the handler started on another thread: some thread able to read it is runnable (the waiter
+        # was notified before the dispatch, or has not gone to sleep yet), so it is processed before any virtual time passes
+        dt = out["dispatch_time"].get(out["seq_of"].get(i))
+        if dt is None or dt > sl["start"]:
+            ctx.violation("reply-waited-for-a-handler-running-in-another-thread", case,
+                          observed={"client": i, "reply in the stream since": out["answer_time"][i], "processed at": dt, "returned at": out["return_time"].get(i),
+                                    "handler": sl, "result": out["results"].get(i)},
+                          expected="the reply is read and processed while the other thread is busy in the handler (no virtual time passes)",
+                          what="a reply that was in the stream before another thread started a long-running handler was processed only after "
+                               "virtual time had passed (the handler finished, or the request ran into its timeout): nobody read the connection meanwhile")
 
 
 def oracle13_callback(ctx, case, out, n_clients, raisers):
@@ -647,6 +688,21 @@ def run_plans(ctx, which):
             ctx.case(("pollers", nc, bg, tuple(order), seed, tuple(pl)), nontrivial=True, sample={"case": case, "results": out["results"]})
             ctx.count("polling-threads-runs(serve without waiting for the lock)")
             oracle13(ctx, case, out, nc)
+    if which == "C13":
+        # a slow handler in another thread must not hold up a reply that is already in the stream (oracle only: the transition system has
+        # no incoming requests); the client's own deadline (2 virtual seconds) is shorter than the handler (5)
+        for k in range(40 if ctx.quick else 600):
+            nc = r.choice([1, 1, 2])
+            order = list(range(nc)); r.shuffle(order)
+            seed, stick = r.randrange(10**9), r.choice([0.0, 0.2, 0.5])
+            tmo = 2.0          # always a deadline: without one the known window F5c would end such a run in a stall of its own
+            out = scenario(nc, True, order, make_chooser(seed, stick), sync_timeout=tmo, timeouts=[tmo] * nc, slow_request=5.0)
+            case = {"clients": nc, "bg": True, "order": order, "seed": seed, "stick": stick, "slow_request": 5.0, "timeout": tmo}
+            ctx.case(("slow-handler", nc, tuple(order), seed, tmo), nontrivial=True, sample={"case": case, "results": out["results"], "slow": out.get("slow")})
+            ctx.count("slow-handler-runs")
+            if out.get("slow") and out["slow"]["thread"] == nc:
+                ctx.count("slow-handler-runs:handler-ran-on-the-background-thread")
+            oracle13_slow(ctx, case, out, nc)
     xbatch = []
     if which == "C13":
         for k in range(80 if ctx.quick else 2000):
@@ -721,6 +777,10 @@ def replay(ctx, rep):
         out = scenario(cs["clients"], cs["bg"], cs["order"], chooser, timeouts=cs["timeouts"], answer_delay={int(k): v for k, v in cs["delay"].items()})
         oracle13_expiry(ctx, cs, out, cs["clients"])
         ctx.case(("replay", cs["seed"]), True)
+        return
+    if "slow_request" in cs:
+        out = scenario(cs["clients"], True, cs["order"], chooser, sync_timeout=cs["timeout"], timeouts=[cs["timeout"]] * cs["clients"], slow_request=cs["slow_request"])
+        oracle13_slow(ctx, cs, out, cs["clients"])
         return
     if "peer_requests" in cs:
         out = scenario(cs["clients"], cs["bg"], cs["order"], chooser, peer_requests=cs["peer_requests"], exc_replies=cs["exc_replies"])
